@@ -9,7 +9,8 @@
    opaque or chained keys), its view of the struct type, its own document, and the observed
    projection of the target onto its fields. *)
 From Coq Require Import List ZArith Bool String Ascii.
-From GZ Require Export C08.Model C08.Spec C08.KModel C08.KSpec C08.TagModel.
+From GZ Require Export C08.Model C08.Spec C08.KModel C08.KSpec C08.TagModel C08.ReqModel.
+From GZgen Require Import C08Consts.
 Import ListNotations.
 Open Scope Z_scope.
 
@@ -24,8 +25,11 @@ Record ocall := mkOCall
     oc_validator : option bool;  (* httpx.SetValidator: Some b = installed, accepts iff b *)
     oc_called : bool;            (* observed: the validator ran *)
     oc_verdict : verdict;        (* observed: nil error / error / recovered panic *)
-    oc_tags : list (string * string * option fopts) }.
+    oc_tags : list (string * string * option fopts);
                                  (* tag texts written by the generator: (text, key, options it stands for) *)
+    oc_forms : list (rform * option jv) }.
+                                 (* the form parameters as sent (r.Form) and the document the generator gave
+                                    the form pass for them: must be GetFormValues of them (ReqModel.v) *)
 
 Fixpoint gval_eqb (a b : gval) {struct a} : bool :=
   match a, b with
@@ -93,9 +97,13 @@ Fixpoint vals_agree (vs : list gval) (ps : list opass) : bool :=
 Definition tags_ok (c : ocall) : bool :=
   forallb (fun t => claim_ok (fst (fst t)) (snd (fst t)) (snd t)) (oc_tags c).
 
+(* every document of a form pass is what GetFormValues makes of the parameters sent *)
+Definition forms_ok (c : ocall) : bool :=
+  forallb (fun fd => optjv_eqb (form_values gen_max_form_values (fst fd)) (snd fd)) (oc_forms c).
+
 (* the model reproduces the implementation's verdict, decoded values and validator call *)
 Definition agrees1 (m : cresult) (c : ocall) : bool :=
-  tags_ok c &&
+  tags_ok c && forms_ok c &&
   if in_scope c then
     match m, oc_verdict c with
     | CAccepted vs, VOk => vals_agree vs (oc_passes c) && Bool.eqb (oc_called c) (is_some (oc_validator c))
